@@ -42,7 +42,7 @@ def one(d):
     m = re.search(r"exit=(\d+)", out)
     rc = int(m.group(1)) if m else -1
     viol = re.findall(r"clause=(\S+)", out)
-    if "PATCH-FAILED" in out:
+    if "PATCH-FAILED" in out or "PATCH-EMPTY" in out:
         return dict(dir=os.path.basename(d), property=pid, verdict="NEUTRALISED", wall=0, note="patch does not apply to the current tree")
     verdict = "DETECTED" if rc == 1 and "VIOLATION property=" + pid in out else ("MISSED" if rc == 0 else f"MACHINERY({rc})")
     r = dict(dir=os.path.basename(d), property=pid, verdict=verdict, wall=round(time.time() - t, 1), clauses=sorted(set(viol))[:6])
